@@ -1,6 +1,7 @@
 """C04 — barriers on concurrent queues exclude and order like a writer lock.
 Proof: Model/CLane.v (one concurrent lane, every dq_state rmw = the body generated from the source) +
-Proofs/CLane_*.v (invariant over all interleavings) + word-level lemmas (Lane_iface).
+Proofs/CLane_*.v (width/lock invariant over all interleavings; CLane_order.v: the history invariant that gives the writer-lock
+order) + word-level lemmas (Lane_iface).
 Correspondence: (1) the lanes stress oracle (harness/c01_lanes.c, shared with C01-C05); (2) harness/c04_clane.c records every
 atomic operation on ONE concurrent queue object under schedule perturbation; every successful dq_state write is checked
 against the generated body of its source site inside Coq (CLaneJudge.tr_ok), the successful writes are chained by value
@@ -14,7 +15,7 @@ import driver
 import lanes
 
 PROPERTIES_FILE = "Properties/Properties_C04.v"
-COQ_DEPS = ["Proofs/Lane_iface.vo", "Proofs/CLane_main.vo"]
+COQ_DEPS = ["Proofs/Lane_iface.vo", "Proofs/CLane_main.vo", "Proofs/CLane_order.vo"]
 GEN_MODULES = ["Gen_dqstate", "Gen_lanesites", "Gen_once"]
 LEVEL = "proof"
 COQ_TIMEOUT = 2400
